@@ -85,12 +85,16 @@ def p5_shape_change(prog):
                         once('moves-on-stay-branch/' + n, calls[n][0]['ln'], '%s reachable on the branch that must leave the entity in place' % n)
                 continue
             n_move += 1
-            bad_count = [n for n in steps if len(calls[n]) != 1]
+            summ = push_summary(prog, calls[push_name][0]) if len(calls[push_name]) == 1 else None
+            records = bool(summ and summ.get('records'))
+            bad_count = [n for n in steps if len(calls[n]) != (0 if (n == 'modify_location_unchecked' and records) else 1)]
             if bad_count:
-                once('step-count/' + bad_count[0], None, 'shape change must call %s exactly once on the moving path (found %d)' % (bad_count[0], len(calls[bad_count[0]])))
+                once('step-count/' + bad_count[0], None, 'shape change must %s exactly once on the moving path (found %d in Entry::%s%s)' % (
+                    'update the moved entity\'s location' if bad_count[0] == 'modify_location_unchecked' else 'call ' + bad_count[0], len(calls[bad_count[0]]), name, ', and the push records it as well' if records else ''))
                 continue
-            pop, gmi, push, mod = (calls[n][0] for n in steps)
-            if not (pop['i'] < gmi['i'] < push['i'] < mod['i']):
+            pop, gmi, push = (calls[n][0] for n in steps[:3])
+            mod = calls['modify_location_unchecked'][0] if not records else None
+            if not (pop['i'] < gmi['i'] < push['i'] and (mod is None or push['i'] < mod['i'])):
                 once('order/%s' % '-'.join(n for n, _ in sorted(((n, calls[n][0]['i']) for n in steps), key=lambda x: x[1])), None, 'pop, archetype lookup, push and location update must happen in this order')
             # popped row: the entry's own row of the entry's own archetype
             li = adt_field_index(prog, 'world::entry::Entry', 'location')
@@ -132,37 +136,55 @@ def p5_shape_change(prog):
             row = pop['ret']
             if not (S(push['args'][0]) == gmi['ret'] and pathsem.mentions(push['args'][1], lambda t: t == row) and pathsem.mentions(push['args'][2], lambda t: t == row)):
                 once('row-not-threaded', push['ln'], 'the popped row (identifier and packed components) is not what is pushed into the target archetype')
-            # the new location: whatever the allocator is handed — `Location::new(identifier, index)` or the struct itself
-            lv = S(mod['args'][2]) if len(mod['args']) > 2 else None
             ladt = prog.adts.get('entity::allocator::location::Location')
             lnames = [x['name'] for x in ladt['variants'][0]['fields']] if ladt else []
-            l_id = l_ix = None
-            if isinstance(lv, tuple) and lv[0] == 'call' and lv[1].endswith('location::Location::<R>::new') and len(lv[2]) == 2:
-                l_id, l_ix = lv[2]
-            elif isinstance(lv, tuple) and lv[0] == 'agg' and lv[1] == 'entity::allocator::location::Location' and 'identifier' in lnames and 'index' in lnames:
-                l_id, l_ix = lv[4][lnames.index('identifier')], lv[4][lnames.index('index')]
-            if l_id is None:
-                once('location-new', mod['ln'], 'the allocator is not handed a location built from the target archetype\'s identifier and the new row index')
-                continue
-
-            class _L(dict):
-                pass
-            lc = {'ret': lv, 'ln': mod['ln']}
-            # what the push returns: the row index (length before the push) or — after a contract change — the row
-            # count (one more); read off the callee, the caller must use it accordingly
-            off = push_return_offset(prog, push)
-            if off is None:
-                once('location-index', lc['ln'], 'cannot relate the value returned by %s to the row it pushed' % push['name'])
+            if summ is not None and summ.get('kind') == 'location':
+                # the push itself builds (and, if `records`, stores) the location of the row it pushed — checked on the
+                # callee (push_summary) — and hands it back
+                lc = {'ret': push['ret'], 'ln': push['ln']}
+                if not summ.get('ok'):
+                    once('location-new', push['ln'], 'the location returned by %s is not (identifier of that archetype, index of the pushed row)' % push['name'])
+                    continue
+                if records:
+                    ai, ej = summ['alloc_pos'], summ['entity_pos']
+                    aa = push['args']
+                    alloc_f = adt_field_index(prog, 'world::World', 'entity_allocator')
+                    if not (ai < len(aa) and pathsem.mentions(aa[ai], lambda t: pathsem.is_field_of(t, 'world::World', alloc_f)) and pathsem.mentions(aa[ai], lambda t: t == me)):
+                        once('allocator-gets-other-location', push['ln'], 'the push is not handed this world\'s entity allocator to record the new location in')
+                    if not (ej < len(aa) and pathsem.mentions(aa[ej], lambda t: t == row)):
+                        once('allocator-gets-other-entity', push['ln'], 'the location is not updated for the entity that was moved')
+                else:
+                    if S(mod['args'][2]) != push['ret']:
+                        once('allocator-gets-other-location', mod['ln'], 'allocator is not given the location the push returned')
+                    if not pathsem.mentions(mod['args'][1], lambda t: t == row):
+                        once('allocator-gets-other-entity', mod['ln'], 'the location is not updated for the entity that was moved')
             else:
-                want = pathsem.lin(push['ret']) - Lin.k(off)
-                got = pathsem.lin(l_ix)
-                if str(got) != str(want):
-                    once('location-index', lc['ln'], 'new location does not use the row index of the pushed row (the push returns %s, the location stores %s)' % ('the row index' if off == 0 else 'the row index + %d' % off, pathsem.tstr(l_ix)[:60]))
-            ida = S(l_id)
-            if not (isinstance(ida, tuple) and ida[0] == 'call' and ida[1].endswith('::identifier') and S(ida[2][0]) == gmi['ret']):
-                once('location-identifier', lc['ln'], 'new location does not use the target archetype\'s identifier')
-            if not pathsem.mentions(mod['args'][1], lambda t: t == row):
-                once('allocator-gets-other-entity', mod['ln'], 'the location is not updated for the entity that was moved')
+                # the new location: whatever the allocator is handed — `Location::new(identifier, index)` or the struct itself
+                lv = S(mod['args'][2]) if len(mod['args']) > 2 else None
+                l_id = l_ix = None
+                if isinstance(lv, tuple) and lv[0] == 'call' and lv[1].endswith('location::Location::<R>::new') and len(lv[2]) == 2:
+                    l_id, l_ix = lv[2]
+                elif isinstance(lv, tuple) and lv[0] == 'agg' and lv[1] == 'entity::allocator::location::Location' and 'identifier' in lnames and 'index' in lnames:
+                    l_id, l_ix = lv[4][lnames.index('identifier')], lv[4][lnames.index('index')]
+                if l_id is None:
+                    once('location-new', mod['ln'], 'the allocator is not handed a location built from the target archetype\'s identifier and the new row index')
+                    continue
+                lc = {'ret': lv, 'ln': mod['ln']}
+                # what the push returns: the row index (length before the push) or — after a contract change — the row
+                # count (one more); read off the callee, the caller must use it accordingly
+                off = summ.get('off') if summ else None
+                if off is None:
+                    once('location-index', lc['ln'], 'cannot relate the value returned by %s to the row it pushed' % push['name'])
+                else:
+                    want = pathsem.lin(push['ret']) - Lin.k(off)
+                    got = pathsem.lin(l_ix)
+                    if str(got) != str(want):
+                        once('location-index', lc['ln'], 'new location does not use the row index of the pushed row (the push returns %s, the location stores %s)' % ('the row index' if off == 0 else 'the row index + %d' % off, pathsem.tstr(l_ix)[:60]))
+                ida = S(l_id)
+                if not (isinstance(ida, tuple) and ida[0] == 'call' and ida[1].endswith('::identifier') and S(ida[2][0]) == gmi['ret']):
+                    once('location-identifier', lc['ln'], 'new location does not use the target archetype\'s identifier')
+                if not pathsem.mentions(mod['args'][1], lambda t: t == row):
+                    once('allocator-gets-other-entity', mod['ln'], 'the location is not updated for the entity that was moved')
             wrote = [e for e in p.events if e['k'] == 'store' and pathsem.is_field_of(e['loc'], 'world::entry::Entry', li) and S(e['value']) == lc['ret']]
             if not wrote:
                 once('entry-location-stale', None, 'the entry keeps its old location after the move: a second add/remove on the same entry would address the wrong row')
@@ -171,35 +193,70 @@ def p5_shape_change(prog):
     return r
 
 
-_PUSH_OFF = {}
+_PUSH_SUMM = {}
 
 
-def push_return_offset(prog, ev):
-    """value returned by an Archetype push method minus the index of the row it pushed (= length before the push):
-    0 for `self.length - 1` after the increment, 1 for the new row count; None if not a constant."""
+def push_summary(prog, ev):
+    """What an Archetype push method hands back, read off its own paths: {'kind': 'index', 'off': c} when it returns
+    (index of the pushed row) + c (0: `self.length - 1` after the increment, 1: the new row count); {'kind':
+    'location', 'ok': identifier is this archetype's and index is the pushed row's, 'records': it also stores that
+    location for the entity in the allocator it was given, 'alloc_pos'/'entity_pos': which arguments those are}."""
     tgt = ev['f'].get('res') or ev['f']
     dp = tgt.get('dp')
     key = (id(prog), dp)
-    if key in _PUSH_OFF:
-        return _PUSH_OFF[key]
+    if key in _PUSH_SUMM:
+        return _PUSH_SUMM[key]
     out = None
     f = prog.fns.get(dp)
     if f is not None:
+        S = pathsem.strip_refs
         li = adt_field_index(prog, 'archetype::Archetype', 'length')
+        ii = adt_field_index(prog, 'archetype::Archetype', 'identifier')
+        ladt = prog.adts.get('entity::allocator::location::Location')
+        lnames = [x['name'] for x in ladt['variants'][0]['fields']] if ladt else []
+        me = ('p', 1, f.body.local_name(1) or '')
         E = pathsem.analyse(prog, f)
-        offs = set()
+        outs = []
         for p in E.paths:
             if p.ended != 'return':
                 continue
-            L = pathsem.lin(p.ret)
-            atoms = [t for t in L.terms if pathsem.is_field_of(t, 'archetype::Archetype', li)]
-            if len(L.terms) == 1 and len(atoms) == 1 and L.terms[atoms[0]] == 1:
-                offs.add(L.const)
+            v = S(p.ret)
+
+            def row_off(t):
+                L = pathsem.lin(t)
+                atoms = [a_ for a_ in L.terms if pathsem.is_field_of(a_, 'archetype::Archetype', li)]
+                if len(L.terms) == 1 and len(atoms) == 1 and L.terms[atoms[0]] == 1:
+                    return L.const
+                return None
+            l_id = l_ix = None
+            if isinstance(v, tuple) and v[0] == 'call' and v[1].endswith('location::Location::<R>::new') and len(v[2]) == 2:
+                l_id, l_ix = v[2]
+            elif isinstance(v, tuple) and v[0] == 'agg' and v[1] == 'entity::allocator::location::Location' and 'identifier' in lnames and 'index' in lnames:
+                l_id, l_ix = v[4][lnames.index('identifier')], v[4][lnames.index('index')]
+            if l_id is not None:
+                ok = row_off(l_ix) == 0 and pathsem.mentions(l_id, lambda t: pathsem.is_field_of(t, 'archetype::Archetype', ii) and pathsem.mentions(t, lambda w: w == me))
+                rec = [e for e in p.calls(lambda e: e['name'] == 'modify_location_unchecked') if len(e['args']) > 2 and S(e['args'][2]) == v]
+                d = {'kind': 'location', 'ok': bool(ok), 'records': len(rec) == 1}
+                if len(rec) == 1:
+                    ap = [x for x in (S(rec[0]['args'][0]), ) if isinstance(x, tuple)]
+                    params = {('p', i, f.body.local_name(i) or ''): i for i in range(1, f.body.argc + 1)}
+                    a0 = S(rec[0]['args'][0])
+                    while isinstance(a0, tuple) and a0[0] == 'd':
+                        a0 = S(a0[1])
+                    e1 = S(rec[0]['args'][1])
+                    d['alloc_pos'] = params.get(a0, 0) - 1
+                    d['entity_pos'] = params.get(e1, 0) - 1
+                    if d['alloc_pos'] < 0 or d['entity_pos'] < 0:
+                        d['ok'] = False
+                elif rec:
+                    d['ok'] = False
+                outs.append(d)
             else:
-                offs.add(None)
-        if len(offs) == 1 and None not in offs and not E.truncated:
-            out = next(iter(offs))
-    _PUSH_OFF[key] = out
+                c = row_off(v)
+                outs.append({'kind': 'index', 'off': c})
+        if outs and not E.truncated and all(o == outs[0] for o in outs):
+            out = outs[0]
+    _PUSH_SUMM[key] = out
     return out
 
 
